@@ -318,6 +318,39 @@ def run(ctx, rec):
                               case=case)
         except Exception as e:
             rec.violation(f"valid-unit-rejected:{type(e).__name__}", f"{gname} over a unit with described / annotated ports raised: {str(e)[:100]}", case=case)
+    # a unit whose interface changed between two uses (an ExternalModule's port list edited in place, a port appended / removed):
+    # every generated module has the ports the unit has WHEN it is generated, all of them connected
+    # (Series is memoised by its parameters: the second use asks for another number in series, a call of its own)
+    for gname, gen in (("Wrapper", lambda u, k: Wrapper(u)), ("Series", lambda u, k: Series(unit=u, conns=("a", "b"), nser=2 + k))):
+        for edit in ("append", "pop", "rename"):
+            rec.count("probe.edited-unit")
+            case = {"gen": gname, "probe": "edited-unit", "edit": edit}
+            uid = next(build._counter)
+            mkports = lambda: [h.Inout(name="a"), h.Inout(name="b"), h.Input(name="en")]
+            X = h.ExternalModule(name=f"EdUnit{uid}", domain="hved19", port_list=mkports(), paramtype=h.HasNoParams)
+            try:
+                first = gen(X(), 0)
+                first.name = f"{first.name}_{uid}a"
+                h.to_proto(first)
+                if edit == "append":
+                    X.port_list.append(h.Inout(name="sub"))
+                elif edit == "pop":
+                    X.port_list.pop()
+                else:
+                    X.port_list[2].name = "enable"
+                second = gen(X(), 1)
+                second.name = f"{second.name}_{uid}b"
+                pm = h.to_proto(second).modules[-1]
+            except Exception as e:
+                rec.violation(f"valid-unit-rejected:{type(e).__name__}", f"{gname} over an external module used before and after a port was "
+                              f"{edit}ed raised: {str(e)[:100]}", case=case)
+                continue
+            want = sorted(p_.name for p_ in X.port_list)
+            got = sorted(p_.signal for p_ in pm.ports)
+            conn = [sorted(c.portname for c in i.connections) for i in pm.instances]
+            if got != want or any(c != want for c in conn):
+                rec.violation("generated-ports-stale", f"{gname} over an external module whose port list was edited ({edit}) after a first use: the unit now has ports "
+                              f"{want}, the generated module {got}, its instances connect {conn}", case=case, edit=edit)
     rec.exhaustive = True
     rec.extra["N"] = N
 
